@@ -188,15 +188,21 @@ func (box *boxTracker) compactRules(rules []css_ast.Rule, keyRange logger.Range,
 
 	// Remove all of the existing declarations
 	var minLoc logger.Loc
+	var lastRuleIndex uint32
 	for i, side := range box.sides {
 		if loc := rules[side.ruleIndex].Loc; i == 0 || loc.Start < minLoc.Start {
 			minLoc = loc
 		}
+		if side.ruleIndex > lastRuleIndex {
+			lastRuleIndex = side.ruleIndex
+		}
 		rules[side.ruleIndex] = css_ast.Rule{}
 	}
 
-	// Insert the combined declaration where the last rule was
-	rules[box.sides[3].ruleIndex] = css_ast.Rule{Loc: minLoc, Data: &css_ast.RDeclaration{
+	// Insert the combined declaration where the last rule was (not where the
+	// rule of the last side was: a declaration that was kept because of its
+	// unit may sit in between and must stay overridden)
+	rules[lastRuleIndex] = css_ast.Rule{Loc: minLoc, Data: &css_ast.RDeclaration{
 		Key:       box.key,
 		KeyText:   box.keyText,
 		Value:     tokens,
